@@ -37,6 +37,13 @@ Untranslatable):
     statements whose effect is dead with respect to that result (backward liveness analysis over the structured
     statements, loops to a fixpoint; a dropped statement may only call functions known to be pure, or be a procedure call
     whose mutated argument is dead) are dropped before translation.
+  * 2-D RESULTS (the contribution function `tau` of `evaluate_emission`): `np.zeros(shape=(rows, n))` with `n` the length of
+    the whole-array axis is a table `Nat → Nat → α`; `A[i] = e` / `A[i] op= e` replace / update row `i` element-wise (e a whole
+    array, or a scalar that numpy broadcasts); `x[0]` of a whole array ALL of whose array values have shape `(1, n)`
+    (`find_lead1`: allocated `np.zeros(shape=(1, …))`, or element-wise expressions of such arrays and scalars) is the array
+    of its n elements; `if isinstance(x, float): A else: B` for a variable that is an array on some paths and a Python float
+    on others is translated when both branches have the SAME translation (which branch runs depends on the dynamic type
+    only); `returns='arr2'`.
   * `vec_externals={'self.f(x, y)': 'name'}`: the value of that call expression (whole text) is the array parameter
     `name`; attributes of kind 'bool' can be used as conditions.
 """
@@ -84,6 +91,9 @@ class FnNp(Fn):
         self.bool_exprs = dict(spec.get('bool_exprs', {}))   # condition text -> Bool parameter
         self.lift_lens = set(spec.get('lift_lens', ()))      # texts of the lengths of lifted axes (in np.zeros shapes)
         self.unit0 = set()                                   # scalars allocated with a leading axis of length 1
+        self.lead1 = set()                                   # whole arrays every array value of which has shape (1, n)
+        self.len_alias = {}                                  # local `n = X.shape[0]` -> the declared length name
+        self.rows2 = set()                                   # 2-D arrays whose trailing axis is the whole-array axis
 
     # ------------------------------------------------------------------ classification
     def is_vec(self, node, isarr):
@@ -101,6 +111,9 @@ class FnNp(Fn):
             return self.is_vec(node.left, isarr) or self.is_vec(node.right, isarr)
         if isinstance(node, ast.IfExp):
             return self.is_vec(node.body, isarr) or self.is_vec(node.orelse, isarr)
+        if isinstance(node, ast.Subscript) and isinstance(node.value, ast.Name) and node.value.id in self.lead1 \
+                and isinstance(node.slice, ast.Constant) and node.slice.value == 0 and type(node.slice.value) is int:
+            return bool(isarr(node.value.id))
         if isinstance(node, ast.Subscript):
             ok, _ = reshape_only(node.slice)
             return ok and self.is_vec(node.value, isarr)
@@ -186,6 +199,50 @@ class FnNp(Fn):
                     vec.add(tgt)
                     changed = True
         return vec
+
+    def lead1_value(self, val, lead, vec):
+        """is every ARRAY this expression can evaluate to of shape (1, n)?  (a scalar / None is neutral: True)"""
+        shape = self.zeros_shape(val)
+        if shape is not None:
+            return len(shape) == 2 and isinstance(shape[0], ast.Constant) and shape[0].value == 1
+        isarr = lambda n: n in vec
+        if not self.is_vec(val, isarr):
+            return True
+        if isinstance(val, ast.Name):
+            return val.id in lead
+        if isinstance(val, ast.UnaryOp):
+            return self.lead1_value(val.operand, lead, vec)
+        if isinstance(val, ast.BinOp):
+            # numpy broadcasting of (1, n) with a scalar, a (1, n) or an element of a lifted axis: (1, n)
+            return all(self.lead1_value(x, lead, vec) for x in (val.left, val.right))
+        if isinstance(val, ast.Call):
+            short, full = self.call_name(val)
+            if short in ('exp', 'log', 'log10', 'sqrt', 'abs', 'fabs') and len(val.args) == 1 and not val.keywords \
+                    and full not in self.known and full not in self.externals:
+                return self.lead1_value(val.args[0], lead, vec)
+        return False
+
+    def find_lead1(self):
+        """names of whole arrays whose every array value has shape (1, n) (greatest fixpoint over the plain assignments;
+        stores `x[...] = e`, `x op= e` and procedure calls act in place and keep the shape)"""
+        vec = self.vecvars
+        assigns = {}
+        for s in self.simple_stmts(self.node.body):
+            if id(s) in self.dropped:
+                continue
+            if isinstance(s, ast.Assign) and len(s.targets) == 1 and isinstance(s.targets[0], ast.Name) \
+                    and s.targets[0].id in vec:
+                assigns.setdefault(s.targets[0].id, []).append(s.value)
+        lead = set(assigns)
+        changed = True
+        while changed:
+            changed = False
+            for n in sorted(lead):
+                if not all(self.lead1_value(v, lead, vec) for v in assigns[n]) \
+                        or not any(self.is_vec(v, lambda m: m in vec) or self.zeros_shape(v) is not None for v in assigns[n]):
+                    lead.discard(n)
+                    changed = True
+        return lead - set(p for p, k in self.kinds.items() if k == 'arr')
 
     # ------------------------------------------------------------------ slicing
     def proc_call(self, s):
@@ -483,6 +540,10 @@ class FnNp(Fn):
         if isinstance(node, ast.Subscript) and isinstance(node.value, ast.Name) and node.value.id in self.unit0 \
                 and env.get(node.value.id) == 's' and isinstance(node.slice, ast.Constant) and node.slice.value == 0:
             return self.var(node.value.id)             # row 0 of an array allocated with a leading axis of length 1
+        if self.vidx is not None and isinstance(node, ast.Subscript) and isinstance(node.value, ast.Name) \
+                and node.value.id in self.lead1 and self.kind_of_name(node.value.id, env) == 'arr' \
+                and isinstance(node.slice, ast.Constant) and node.slice.value == 0 and type(node.slice.value) is int:
+            return '(%s %s)' % (self.var(node.value.id), self.vidx)    # row 0 of an array of shape (1, n): its n elements
         if isinstance(node, ast.Subscript):
             ok, has_none = reshape_only(node.slice)
             if ok:
@@ -628,6 +689,7 @@ class FnNp(Fn):
                 m = re.fullmatch(r'(\w+)\.shape\[0\]', ast.unparse(v))
                 if m and m.group(1) in self.lens:
                     env[t.id] = 'nat'
+                    self.len_alias[t.id] = self.lens[m.group(1)]
                     return '%slet %s := %s\n' % (ind, self.var(t.id), self.var(self.lens[m.group(1)]))
                 shape = self.zeros_shape(v)
                 if shape is not None:
@@ -643,6 +705,10 @@ class FnNp(Fn):
                         env[t.id] = 'arr'
                         return '%slet %s : Nat → α := fun _ => (0 : α)\n' % (ind, self.var(t.id))
                     if rank == 2:
+                        last = shape[-1]
+                        if len(shape) == 2 and self.vec_len and isinstance(last, ast.Name) \
+                                and (self.len_alias.get(last.id) == self.vec_len or last.id == self.vec_len):
+                            self.rows2.add(t.id)             # (rows, n): the trailing axis is the whole-array axis
                         env[t.id] = 'arr2'
                         return '%slet %s : Nat → Nat → α := fun _ _ => (0 : α)\n' % (ind, self.var(t.id))
                     self.fail(s, 'np.zeros of unsupported rank')
@@ -690,6 +756,35 @@ class FnNp(Fn):
                         self.fail(s, 'unsupported augmented assignment')
                     e = '(%s %s %s)' % (nm, ops[type(s.op)], e)
                 return '%slet %s := %s\n' % (ind, nm, e)
+        # `A[i] = e` / `A[i] op= e`: row i of a 2-D array whose trailing axis is the whole-array axis; e a whole array
+        # (element-wise) or a scalar (broadcast)
+        if isinstance(s, (ast.Assign, ast.AugAssign)) and isinstance(tg, ast.Subscript) and isinstance(tg.value, ast.Name) \
+                and env.get(tg.value.id) == 'arr2' and tg.value.id in self.rows2 and not isinstance(tg.slice, (ast.Tuple, ast.Slice)) \
+                and self.is_nat(tg.slice, env):
+            nm = self.var(tg.value.id)
+            row = self.nat(tg.slice, env)
+            self.inplace(s, tg.value.id)
+            e = self.vexpr(s.value, env)
+            if isinstance(s, ast.AugAssign):
+                ops = {ast.Add: '+', ast.Sub: '-', ast.Mult: '*', ast.Div: '/'}
+                if type(s.op) not in ops:
+                    self.fail(s, 'unsupported augmented assignment')
+                e = '((%s i__ j__) %s %s)' % (nm, ops[type(s.op)], e)
+            return '%slet %s : Nat → Nat → α := fun i__ j__ => if i__ = %s then %s else %s i__ j__\n' % (ind, nm, row, e, nm)
+        # `if isinstance(x, float): A else: B` for a variable that holds an array on some paths and a Python float on the
+        # others (a float is read as the constant array: numpy broadcasting gives the same elements).  Which branch runs
+        # depends on the dynamic type only; the statement is translated when BOTH branches have the same translation
+        if isinstance(s, ast.If) and isinstance(s.test, ast.Call) and ast.unparse(s.test.func) == 'isinstance' \
+                and len(s.test.args) == 2 and isinstance(s.test.args[0], ast.Name) and ast.unparse(s.test.args[1]) == 'float' \
+                and s.test.args[0].id in self.vecvars and s.orelse and not self.ends_in_return(s.body) \
+                and not self.ends_in_return(s.orelse):
+            e1, e2 = dict(env), dict(env)
+            t1 = self.block(list(s.body), e1, ind, None, inline=True)
+            t2 = self.block(list(s.orelse), e2, ind, None, inline=True)
+            if t1 != t2 or e1 != e2:
+                self.fail(s, 'the branches of a test on the dynamic type differ')
+            env.update(e1)
+            return t1
         if isinstance(s, ast.If) and not self.ends_in_return(s.body):
             return self.if_stmt(s, env, ind)
         if isinstance(s, ast.AugAssign) and isinstance(s.target, ast.Name) and env.get(s.target.id) == 'arr':
@@ -748,6 +843,14 @@ class FnNp(Fn):
             if self.is_vec(v, self.isarr_env(env)):
                 return 'fun j__ => ' + self.vexpr(v, env)
             self.fail(s, 'an array was declared as the result')
+        if ret == 'arr2':
+            if isinstance(v, ast.Name) and env.get(v.id) == 'arr2':
+                return self.var(v.id)
+            if ast.unparse(v) in self.vec_externals:
+                nm = self.vec_externals[ast.unparse(v)]
+                self.add_param(nm, 'Nat → Nat → α')
+                return nm
+            self.fail(s, 'a 2-D array was declared as the result')
         if ret == 'bool':
             return self.cond(v, env)
         if ret in ('s', 'elem'):
@@ -817,4 +920,5 @@ class FnNp(Fn):
         if self.spec.get('slice'):
             self.dropped = self.compute_slice()
         self.vecvars = self.find_vecvars()
+        self.lead1 = self.find_lead1()
         return super().translate()
